@@ -15,11 +15,11 @@ Here is a semantic property that the library is supposed to satisfy:
 Your task: produce ONE realistic code change (a plausible bug a maintainer could introduce: a refactor slip, an off-by-one, a wrong operator, a forgotten case, two sites that each look fine alone) to the library source under {wt}/quil-rs/src that BREAKS this property, while
   (1) the workspace still compiles, and
   (2) the existing test suite still passes completely: run it with
-        cd {wt} && CARGO_NET_OFFLINE=true cargo nextest run --workspace --no-fail-fast --test-threads 6 --offline
+        cd {wt} && CARGO_NET_OFFLINE=true cargo nextest run --workspace --no-fail-fast --test-threads 4 --offline
       (there is no network; about 3 minutes including the first build; 2981 tests must pass, 0 failures), and
   (3) the break needs something specific to manifest — an unusual input, a particular multi-step sequence of operations, a particular combination of features, or two cooperating sites — not something ordinary use or a trivial example would expose at once. Prefer subtle semantic changes over crashes.
 
-Also write a demonstration: a small Rust integration test file at {wt}/quil-rs/tests/seeded_demo.rs (using only the public API of the crate `quil_rs`) that FAILS with your change and PASSES without it. Verify both directions yourself (git stash the source change, run `cargo test --offline -p quil-rs --test seeded_demo`, unstash, run again).
+Also write a demonstration: a small Rust integration test file at {wt}/quil-rs/tests/seeded_demo.rs (using only the public API of the crate `quil_rs`) that FAILS with your change and PASSES without it. Verify both directions yourself WITHOUT `git stash` (the stash is shared between worktrees and other agents use it): `git diff -- quil-rs/src > {wt}.patch && git apply -R {wt}.patch`, run `cargo test --offline -p quil-rs --test seeded_demo` (must pass), then `git apply {wt}.patch` and run it again (must fail).
 
 When done, leave in {wt}:
   - the source change applied in the working tree (uncommitted),
